@@ -282,7 +282,6 @@ func (d *dir) shape() string {
 	return s
 }
 
-
 // knownGiveUp is a model of ONE known, recorded defect (known_findings.json),
 // used only to give its failures their own violation key, never to judge a
 // result: when sequence number 1 is missing, findBound bisects upwards from 1
